@@ -106,6 +106,92 @@ def search(ck):
     ck.sample({'element': 'Hs', 'isotopes': sorted(Element.from_symbol('Hs')().isotopes_distribution)})
 
 
+def search_construction_and_rules(ck):
+    """oracles on the live classes that do not use the model: (a) every tabulated isotope is reachable through delta_isotope (counted
+    from mdl_isotope, as the MDL readers do) and through the positional argument, an untabulated neighbour is rejected either way;
+    (b) the compiled valence rules mean what the table documentation says: the first common valence v of an element with implicit
+    hydrogens gives h hydrogens at bond-order sum v - h (h = 0..v), every other common valence 0 hydrogens; an exception record
+    (charge, radical, implicit, environment) gives h hydrogens at sum(environment orders) + implicit - h for h = 0..implicit with
+    exactly that environment; nothing else is in the table (rule counts per key recomputed from the literal tables)"""
+    from collections import Counter
+    from chython.periodictable import Element
+    numbers = {sym: n for n, sym in enumerate(ORACLE_SYMBOLS, 1)}
+    n_bad = 0
+    for n, sym in enumerate(ORACLE_SYMBOLS, 1):
+        cls = Element.from_symbol(sym)
+        inst = cls()
+        keys = sorted(inst.isotopes_distribution)
+        mdl = inst.mdl_isotope
+
+        def bad(key, what, inp, observed, expected, replay):
+            nonlocal n_bad
+            n_bad += 1
+            if n_bad <= 12:
+                ck.counterexample(f'{key}:{sym}', f'{sym}: {what}', dict({'element': sym}, **inp), observed, expected,
+                                  'documented meaning of the element tables, recomputed from the literals', replay_py=replay)
+        # (a) construction through delta_isotope
+        for k in keys + [keys[0] - 1, keys[-1] + 1]:
+            ck.case(('delta', sym, k))
+            want = k if k in keys else 'ValueError'
+            for how, mk in (('delta_isotope', lambda: cls(delta_isotope=k - mdl)), ('isotope', lambda: cls(k))):
+                try:
+                    got = mk().isotope
+                except Exception as e:
+                    got = type(e).__name__
+                if got != want:
+                    bad(f'construct-{how}:{k}', f'{sym}({how}={k - mdl if how == "delta_isotope" else k}) gives isotope {got}, mdl_isotope is {mdl}',
+                        {'isotope': k, 'via': how}, got, want,
+                        f'from chython.periodictable import Element; c=Element.from_symbol({sym!r}); print(c(delta_isotope={k - mdl}).isotope, c().mdl_isotope)')
+        # (b) meaning of the rule table
+        try:
+            cv, exc = inst._common_valences, inst._valences_exceptions
+            expected = Counter()        # (charge, radical, bond-order sum, hydrogens, environment) -> multiplicity
+            if cv[0] and n != 1:
+                for h in range(cv[0] + 1):
+                    expected[(0, False, cv[0] - h, h, ())] += 1
+                rest = cv[1:]
+            else:
+                rest = cv
+            for v in rest:
+                expected[(0, False, v, 0, ())] += 1
+            for c, r, imp, env in exc:
+                e_env = tuple(sorted(Counter((o, numbers[s]) for o, s in env).items()))
+                tot = sum(o for o, _ in env)
+                for h in range(imp + 1):
+                    expected[(c, r, tot + imp - h, h, e_env)] += 1
+            got = Counter()
+            states = sorted({(c, r) for c, r, *_ in expected})
+            sums = sorted({v for _, _, v, *_ in expected})
+            for c, r in states:
+                a = cls(charge=c, is_radical=r)
+                for v in range(0, max(sums) + 2):
+                    try:
+                        rules = a.valence_rules(v)
+                    except Exception as e:
+                        if type(e).__name__ != 'ValenceError':
+                            raise
+                        rules = []
+                    for st, d, h in rules:
+                        if set(d) != set(st):
+                            bad(f'rule-set:{c}:{r}:{v}', 'a compiled rule whose neighbour set is not the key set of its neighbour dict',
+                                {'charge': c, 'radical': r, 'bond order sum': v}, [sorted(st), sorted(d)], 'equal', None)
+                        got[(c, r, v, h, tuple(sorted(d.items())))] += 1
+            ck.case(('rule-meaning', sym))
+            if got != expected:
+                miss = sorted((expected - got).items())[:3]
+                extra = sorted((got - expected).items())[:3]
+                k0 = (miss or extra)[0][0]
+                bad('rule-meaning', f'valence_rules of {sym} (charge {k0[0]}, radical {k0[1]}) at bond-order sum {k0[2]}: the rule giving {k0[3]} hydrogens with '
+                    f'environment {list(k0[4])} is {"missing" if miss else "not justified by the tables"}',
+                    {'charge': k0[0], 'radical': k0[1], 'bond order sum': k0[2]}, {'missing': miss, 'unjustified': extra}, 'exactly the rules the tables document',
+                    f'from chython.periodictable import Element; a=Element.from_symbol({sym!r})(charge={k0[0]}, is_radical={k0[1]}); print(a._common_valences, a._valences_exceptions); print(a.valence_rules({k0[2]}))')
+        except Exception as e:
+            if type(e).__name__ in ('AssertionError',):
+                raise
+            # compile failures are reported by search(); nothing to compare here
+    ck.count('construction through delta_isotope / isotope (tabulated + 2 neighbours) and rule-table meaning (118 elements)')
+
+
 LOOKUP_PROBE = r"""
 import boot, sys, json
 from chython.periodictable import Element
@@ -313,11 +399,360 @@ def search_matcher_states(ck):
     ck.count('matcher-state sweep (elements x isotopes, charges x radical x hydrogens; 7-8 queries each, both matchers)')
 
 
+ELEMCODE_EXTRA = r"""From Gen Require Import Elements ElemCode.
+From Proofs Require Import ElemCodeTie.
+Definition pyv_eqb (a b : pyv) : bool :=
+  match a, b with VNone, VNone => true | VInt x, VInt y => Z.eqb x y | VBool x, VBool y => Bool.eqb x y | VOther, VOther => true | _, _ => false end.
+Definition el (s : string) : elem := match find (fun e => String.eqb (e_sym e) s) elements with Some e => e | None => mkElem "?"%string 0 0 0 nil nil nil nil (0, 0%nat) 0 false false end.
+Definition iso_ok s v exp := pyres_eqb pyv_eqb (g_isotope_set (el s) v) exp.
+Definition chg_ok s v exp := pyres_eqb pyv_eqb (g_charge_set (el s) v) exp.
+Definition rad_ok s v exp := pyres_eqb pyv_eqb (g_is_radical_set (el s) v) exp.
+Definition t3_eqb (a b : pyv * pyv * pyv) : bool := let '(a1, a2, a3) := a in let '(b1, b2, b3) := b in pyv_eqb a1 b1 && pyv_eqb a2 b2 && pyv_eqb a3 b3.
+Definition init_ok s i c r d exp := pyres_eqb t3_eqb (g_init (el s) i c r d) exp.
+Definition mass_ok s iso (exp : Z) : bool :=
+  match g_atomic_mass (el s) iso with
+  | Ok (MSum m) => Z.abs (m - exp) <=? 10 ^ 13
+  | Ok (MOne d) => Z.abs (g_scale d * 10 ^ 12 - exp) <=? 10 ^ 13
+  | Err _ => false
+  end.
+Definition mass_err s iso : bool := match g_atomic_mass (el s) iso with Err KeyError => true | _ => false end.
+Definition res_sym (r : pyres elem) : pyres string := match r with Ok e => Ok (e_sym e) | Err x => Err x end.
+Definition sym_ok s exp := pyres_eqb String.eqb (res_sym (g_from_symbol s)) exp.
+Definition hist_ok (fresh : bool) ns exp := list_eqb (pyres_eqb String.eqb) (map res_sym (run_lookups (if fresh then nil else filled_cache) ns)) exp.
+Definition cache_ok_after n (exp : list (Z * string)) : bool :=
+  match snd (g_from_atomic_number nil n) with
+  | (k, t) :: nil => String.eqb k "elements"%string && list_eqb (fun a b => Z.eqb (fst a) (fst b) && String.eqb (snd a) (snd b)) (map (fun kv => (fst kv, e_sym (snd kv))) t) exp
+  | _ => false
+  end.
+"""
+
+
+def correspondence_elemcode(ck):
+    """the functions translated from element.py (Gen.ElemCode) against the running methods, on the same inputs: every element x
+    (None, every tabulated isotope, neighbours of the table, bools, str, float) through the isotope / charge / is_radical setters
+    and __init__ (with delta_isotope, with both isotope and delta), atomic_mass with and without isotope and with an isotope
+    forced past the setter, from_symbol on all symbols and malformed ones, from_atomic_number as call HISTORIES from an emptied
+    class cache (the dictionary left in the cache is compared entry by entry)"""
+    import random
+    from fractions import Fraction
+    import coqcases
+    from coqfmt import s as cs, zraw, lst
+    from chython.periodictable import Element
+    rng = random.Random(1800 + ck.seed)
+    EXN = {'KeyError', 'ValueError', 'IndexError', 'TypeError', 'StopIteration', 'AttributeError'}
+
+    def pv(v):
+        if v is None:
+            return 'VNone'
+        if isinstance(v, bool):
+            return f'(VBool {"true" if v else "false"})'
+        if isinstance(v, int):
+            return f'(VInt {zraw(v)})'
+        return 'VOther'
+
+    def exn(e):
+        n = type(e).__name__
+        return f'(Err {n})' if n in EXN else '(Err OtherError)'
+
+    def stored(a, v):
+        """what the slot holds after a successful store: must be the very object that was passed"""
+        return a is v or (type(a) is type(v) and a == v)
+
+    cases, meta = [], []
+
+    def add(c, m):
+        cases.append(c)
+        meta.append(m)
+
+    odd = [True, False, 'C', 1.0, (1,)]
+    few_elements = {1, 6, 118} | set(rng.sample(range(1, 119), 5))
+    for n, sym in enumerate(ORACLE_SYMBOLS, 1):
+        cls = Element.from_symbol(sym)
+        inst = cls()
+        keys = sorted(inst.isotopes_distribution)
+        vals = [None] + keys + [keys[0] - 1, keys[-1] + 1, inst.mdl_isotope, 0, -1, n] + odd
+        vals += [k for k in range(keys[0], keys[-1]) if k not in keys][:3]
+        for v in vals:
+            a = cls()
+            try:
+                a.isotope = v
+                exp = f'(Ok {pv(v)})' if stored(a._isotope, v) else '(Err OtherError)'
+            except Exception as e:
+                exp = exn(e)
+            add(f'iso_ok {cs(sym)} {pv(v)} {exp}', ('isotope setter', sym, repr(v), exp))
+            ck.case(('src-iso', sym, repr(v)))
+        few = n in few_elements       # the translated charge / is_radical setters do not read the element (theorem): a few classes suffice
+        for v in (list(range(-6, 7)) + [None] + odd) if few else ():
+            a = cls()
+            try:
+                a.charge = v
+                exp = f'(Ok {pv(v)})' if stored(a._charge, v) else '(Err OtherError)'
+            except Exception as e:
+                exp = exn(e)
+            add(f'chg_ok {cs(sym)} {pv(v)} {exp}', ('charge setter', sym, repr(v), exp))
+        for v in [True, False, None, 0, 1, 'x', 1.0] if few else ():
+            a = cls()
+            try:
+                a.is_radical = v
+                exp = f'(Ok {pv(v)})' if stored(a._is_radical, v) else '(Err OtherError)'
+            except Exception as e:
+                exp = exn(e)
+            add(f'rad_ok {cs(sym)} {pv(v)} {exp}', ('is_radical setter', sym, repr(v), exp))
+        # __init__
+        inits = [(None, 0, False, None)] + [(k, rng.randint(-5, 5), rng.random() < .5, None) for k in keys]
+        inits += [(None, rng.randint(-4, 4), rng.random() < .5, d) for d in (-9, -8, -1, 0, 1, 8, 9, rng.randint(-12, 12))]
+        inits += [(None, 0, False, k - inst.mdl_isotope) for k in keys[:2]]
+        inits += [(keys[0], 0, False, 0), (keys[0], 0, False, 1), ('C', 0, False, None), (None, 'x', False, None), (None, 0, 1, None),
+                  (keys[0] - 1, 9, 'x', None), (None, 9, 'x', None), (True, 0, False, None), (None, True, False, None)]
+        for iso, ch, rad, d in inits:
+            try:
+                a = cls(iso, charge=ch, is_radical=rad, delta_isotope=d)
+                exp = f'(Ok ({pv(a._isotope)}, {pv(a._charge)}, {pv(a._is_radical)}))'
+            except Exception as e:
+                exp = exn(e)
+            add(f'init_ok {cs(sym)} {pv(iso)} {pv(ch)} {pv(rad)} {pv(d)} {exp}', ('__init__', sym, (iso, ch, rad, d), exp))
+            ck.case(('src-init', sym, repr(iso), repr(ch), repr(rad), repr(d)))
+        # atomic_mass
+        for k in [None] + keys + [keys[-1] + 7, 0]:
+            a = cls()
+            a._isotope = k          # past the setter: the getter alone decides
+            iso = 'None' if k is None else f'(Some {zraw(k)})'
+            try:
+                m = a.atomic_mass
+                add(f'mass_ok {cs(sym)} {iso} {zraw(round(Fraction(m) * 10 ** 24))}', ('atomic_mass', sym, k, m))
+            except KeyError:
+                add(f'mass_err {cs(sym)} {iso}', ('atomic_mass', sym, k, 'KeyError'))
+            except Exception as e:
+                add('false', ('atomic_mass', sym, k, f'raises {type(e).__name__}'))
+            ck.case(('src-mass', sym, k))
+    ck.count('translated setters / __init__ / atomic_mass vs the running methods (118 elements x values)', len(cases))
+    n0 = len(cases)
+    # lookups
+    for sname in ORACLE_SYMBOLS + ['', 'Xx', 'c', 'h', 'QueryC', 'DynamicC', 'Element', 'H ', 'HE', 'D', 'T', 'R', 'A', 'M', 'X']:
+        try:
+            exp = f'(Ok {cs(Element.from_symbol(sname).__name__)})'
+        except Exception as e:
+            exp = exn(e)
+        add(f'sym_ok {cs(sname)} {exp}', ('from_symbol', sname, exp))
+        ck.case(('src-sym', sname))
+    saved = dict(Element.__class_cache__)
+    try:
+        for h in range(12):
+            fresh = h % 2 == 0
+            if fresh:
+                Element.__class_cache__.pop('elements', None)
+            ns = [rng.choice([rng.randint(1, 118), rng.randint(-3, 125), 0, 119, 118, 1]) for _ in range(rng.randint(1, 12))]
+            res = []
+            for k in ns:
+                try:
+                    res.append(f'(Ok {cs(Element.from_atomic_number(k).__name__)})')
+                except Exception as e:
+                    res.append(exn(e))
+            add(f'hist_ok {"true" if fresh else "false"} {lst([zraw(k) for k in ns])} {lst(res)}', ('from_atomic_number history', fresh, ns, res))
+            ck.case(('src-hist', fresh, tuple(ns)))
+            if fresh:
+                tab = Element.__class_cache__.get('elements') or {}
+                add(f'cache_ok_after {zraw(ns[0])} {lst([f"({zraw(k)}, {cs(v.__name__)})" for k, v in tab.items()])}',
+                    ('class cache after the first lookup', ns[0], len(tab)))
+    finally:
+        Element.__class_cache__.clear()
+        Element.__class_cache__.update(saved)
+    ck.count('translated lookups vs the running methods (symbols, malformed symbols, call histories, cache contents)', len(cases) - n0)
+    ok, failing, log = coqcases.run_cases('c18src', 'PeriodicTable', cases, extra=ELEMCODE_EXTRA, shard=400)   # (the nat indices make a shard quadratic in its length)
+    ck.oblige('correspondence: element.py methods as translated (Gen.ElemCode) == running methods on the same inputs', ok and not failing,
+              'correspondence', log or str([meta[i] for i in failing[:5]]))
+    ck.extra['correspondence_cases'] = len(cases)
+    ck.sample({'model_call': cases[3], 'meta': repr(meta[3])})
+    ck.sample({'model_call': cases[-1][:300], 'meta': repr(meta[-1])[:300]})
+    if not ok or failing:
+        ck.unchecked('correspondence Gen.ElemCode (translated element.py) vs running chython/periodictable/base/element.py', log[-1500:],
+                     [repr(meta[i]) for i in failing[:20]])
+    return ok and not failing
+
+
+ELEMRULES_EXTRA = r"""From Model Require Import Valence.
+From Gen Require Import Elements ElemRules.
+Definition el (s : string) : elem := match find (fun e => String.eqb (e_sym e) s) elements with Some e => e | None => mkElem "?"%string 0 0 0 nil nil nil nil (0, 0%nat) 0 false false end.
+Definition edict_eqb (a b : edict) : bool := list_eqb (fun x y => ekey_eqb (fst x) (fst y) && Z.eqb (snd x) (snd y)) a b.
+(* a Python set has no order: same elements, same size *)
+Definition eset_eqb (a b : list ekey) : bool :=
+  Nat.eqb (List.length a) (List.length b) && forallb (fun x => existsb (ekey_eqb x) b) a && forallb (fun x => existsb (ekey_eqb x) a) b.
+Definition rule_eqb (a b : rule) : bool := eset_eqb (r_set a) (r_set b) && edict_eqb (r_dict a) (r_dict b) && Z.eqb (r_h a) (r_h b).
+Definition rtable_eqb (a b : rtable) : bool := list_eqb (fun x y => rkey_eqb (fst x) (fst y) && list_eqb rule_eqb (snd x) (snd y)) a b.
+Definition rules_ok s (exp : pyres rtable) := pyres_eqb rtable_eqb (g_compiled_valence_rules (el s)) exp.
+Definition sat_eqb (a b : satrule) : bool :=
+  let '(c1, r1, v1, i1, d1) := a in let '(c2, r2, v2, i2, d2) := b in
+  Z.eqb c1 c2 && Bool.eqb r1 r2 && Z.eqb v1 v2 && Z.eqb i1 i2 && option_eqb edict_eqb d1 d2.
+Definition sat_ok s (exp : pyres (list satrule)) := pyres_eqb (list_eqb sat_eqb) (g_compiled_saturation_rules (el s)) exp.
+Definition cr_ok s (exp : list (Z * bool)) :=
+  let got := g_compiled_charge_radical (el s) in
+  let eq := fun (x y : Z * bool) => Z.eqb (fst x) (fst y) && Bool.eqb (snd x) (snd y) in
+  Nat.eqb (List.length got) (List.length exp) && forallb (fun x => existsb (eq x) exp) got && forallb (fun x => existsb (eq x) got) exp.
+Definition vr_ok s c r v (exp : pyres (list rule)) := pyres_eqb (list_eqb rule_eqb) (g_valence_rules (el s) c r v) exp.
+"""
+
+
+def correspondence_elemrules(ck):
+    """the valence-table compilers translated from element.py (Gen.ElemRules) against the running class properties: the complete
+    compiled rule dictionary (keys in insertion order, every rule's set, dict and hydrogen count), the saturation rule list and the
+    (charge, radical) set of all 118 elements, and valence_rules(v) on atoms in tabulated and untabulated states (ValenceError)"""
+    import random
+    import coqcases
+    from coqfmt import s as cs, zraw, lst
+    from chython.periodictable import Element
+    rng = random.Random(1801 + ck.seed)
+
+    def bo(v):
+        return 'true' if v else 'false'
+
+    def ek(k):
+        return f'({zraw(k[0])}, {zraw(k[1])})'
+
+    def rule(r):
+        st, d, h = r
+        return f'(mkRule {lst([ek(k) for k in sorted(st)])} {lst([f"({ek(k)}, {zraw(c)})" for k, c in d.items()])} {zraw(h)})'
+
+    def exn(e):
+        n = type(e).__name__
+        return f'(Err {n})' if n in ('KeyError', 'IndexError', 'ValenceError', 'ValueError', 'TypeError') else '(Err OtherError)'
+
+    cases, meta = [], []
+    for n, sym in enumerate(ORACLE_SYMBOLS, 1):
+        cls = Element.from_symbol(sym)
+        a = cls()
+        try:
+            t = a._compiled_valence_rules
+            exp = '(Ok ' + lst([f'(({zraw(c)}, {bo(r)}, {zraw(v)}), {lst([rule(x) for x in rr])})' for (c, r, v), rr in t.items()]) + ')'
+        except Exception as e:
+            t, exp = None, exn(e)
+        cases.append(f'rules_ok {cs(sym)} {exp}')
+        meta.append(('_compiled_valence_rules', sym))
+        try:
+            sr = a._compiled_saturation_rules
+            exp = '(Ok ' + lst(['(' + ', '.join([zraw(c), bo(r), zraw(v), zraw(i), 'None' if d is None else
+                                                   '(Some ' + lst([f"({ek(k)}, {zraw(x)})" for k, x in d.items()]) + ')']) + ')'
+                                for c, r, v, i, d in sr]) + ')'
+        except Exception as e:
+            exp = exn(e)
+        cases.append(f'sat_ok {cs(sym)} {exp}')
+        meta.append(('_compiled_saturation_rules', sym))
+        try:
+            cr = a._compiled_charge_radical
+            cases.append(f'cr_ok {cs(sym)} {lst([f"({zraw(c)}, {bo(r)})" for c, r in sorted(cr)])}')
+        except Exception as e:
+            cases.append('false')
+        meta.append(('_compiled_charge_radical', sym))
+        ck.case(('src-rules', sym))
+        probes = [(0, False, v) for v in range(0, 9)]
+        if t:
+            probes += [k for k in t if k[0] != 0 or k[1]][:6]
+        probes += [(rng.randint(-4, 4), rng.random() < .3, rng.randint(0, 8)) for _ in range(4)]
+        for c, r, v in probes:
+            b = cls(charge=c, is_radical=r)
+            try:
+                exp = '(Ok ' + lst([rule(x) for x in b.valence_rules(v)]) + ')'
+            except Exception as e:
+                exp = exn(e)
+            cases.append(f'vr_ok {cs(sym)} {zraw(c)} {bo(r)} {zraw(v)} {exp}')
+            meta.append(('valence_rules', sym, c, r, v))
+            ck.case(('src-vrules', sym, c, r, v))
+    ck.count('translated valence-table compilers vs the running class properties (118 elements: 3 tables + valence_rules probes)', len(cases))
+    ok, failing, log = coqcases.run_cases('c18rules', 'PeriodicTable', cases, extra=ELEMRULES_EXTRA, shard=300)
+    ck.oblige('correspondence: valence-table compilers as translated (Gen.ElemRules) == running _compiled_* properties / valence_rules', ok and not failing,
+              'correspondence', log or str([meta[i] for i in failing[:5]]))
+    ck.extra['correspondence_cases'] = ck.extra.get('correspondence_cases', 0) + len(cases)
+    ck.sample({'model_call': cases[15][:400], 'meta': repr(meta[15])})
+    if not ok or failing:
+        ck.unchecked('correspondence Gen.ElemRules (translated valence-table compilers) vs running chython/periodictable/base/element.py', log[-1500:],
+                     [repr(meta[i]) for i in failing[:20]])
+    return ok and not failing
+
+
+ELEMVARIANTS_EXTRA = r"""From Gen Require Import Elements ElemCode ElemVariants.
+Definition vres (r : pyres vclass) : pyres string := match r with Ok c => Ok (v_name c) | Err x => Err x end.
+Definition qresn (r : pyres qres) : pyres string :=
+  match r with Ok (QClass c) => Ok (v_name c) | Ok QAnyElement => Ok "AnyElement"%string | Ok QAnyMetal => Ok "AnyMetal"%string | Err x => Err x end.
+Definition dsym_ok s exp := pyres_eqb String.eqb (vres (g_dynamic_from_symbol s)) exp.
+Definition qsym_ok s exp := pyres_eqb String.eqb (qresn (g_query_from_symbol s)) exp.
+Definition dnum_ok n exp := pyres_eqb String.eqb (vres (g_dynamic_from_atomic_number n)) exp.
+Definition qnum_ok n exp := pyres_eqb String.eqb (qresn (g_query_from_atomic_number n)) exp.
+Definition dorder_ok (exp : list (string * Z)) : bool :=
+  list_eqb (fun a b => String.eqb (fst a) (fst b) && Z.eqb (snd a) (snd b)) (map (fun c => (v_name c, v_num c)) g_dynamic_classes) exp.
+Definition qorder_ok (exp : list (string * Z * Z)) : bool :=
+  list_eqb (fun a b => let '(s1, n1, m1) := a in let '(s2, n2, m2) := b in String.eqb s1 s2 && Z.eqb n1 n2 && Z.eqb m1 m2)
+           (map (fun c => (v_name c, v_num c, match v_mdl c with Some m => m | None => -1 end)) g_query_classes) exp.
+Definition dsymbol_ok name sym := String.eqb (g_dynamic_symbol (mkV name 0 None)) sym.
+Definition qsymbol_ok name sym := String.eqb (g_query_symbol (mkV name 0 None)) sym.
+"""
+
+
+def correspondence_elemvariants(ck):
+    """the Query* / Dynamic* classes and their lookup / symbol methods as translated (Gen.ElemVariants) against the running package:
+    the subclasses of both variant bases in creation order with number (and reference isotope), from_symbol on all symbols, the two
+    wildcard letters and malformed symbols, from_atomic_number on -3..125, and the symbol every variant INSTANCE reports"""
+    import coqcases
+    from coqfmt import s as cs, zraw, lst
+    from chython.periodictable import DynamicElement, QueryElement
+
+    def res(f, a):
+        try:
+            return f'(Ok {cs(f(a).__name__)})'
+        except Exception as e:
+            n = type(e).__name__
+            return f'(Err {n})' if n in ('KeyError', 'ValueError', 'IndexError', 'TypeError', 'StopIteration', 'AttributeError') else '(Err OtherError)'
+
+    cases, meta = [], []
+    dsub, qsub = DynamicElement.__subclasses__(), QueryElement.__subclasses__()
+    cases.append('dorder_ok ' + lst([f'({cs(c.__name__)}, {zraw(c.atomic_number.fget(None))})' for c in dsub]))
+    meta.append(('DynamicElement.__subclasses__() in order',))
+    cases.append('qorder_ok ' + lst([f'({cs(c.__name__)}, {zraw(c.atomic_number.fget(None))}, {zraw(c.mdl_isotope.fget(None))})' for c in qsub]))
+    meta.append(('QueryElement.__subclasses__() in order',))
+    for sname in ORACLE_SYMBOLS + ['A', 'M', '', 'Xx', 'c', 'QueryC', 'DynamicC', 'C ', 'R', 'X', 'a', 'm', 'AM']:
+        cases.append(f'dsym_ok {cs(sname)} {res(DynamicElement.from_symbol, sname)}')
+        meta.append(('DynamicElement.from_symbol', sname))
+        cases.append(f'qsym_ok {cs(sname)} {res(QueryElement.from_symbol, sname)}')
+        meta.append(('QueryElement.from_symbol', sname))
+        ck.case(('src-variant-sym', sname))
+    for k in range(-3, 126):
+        cases.append(f'dnum_ok {zraw(k)} {res(DynamicElement.from_atomic_number, k)}')
+        meta.append(('DynamicElement.from_atomic_number', k))
+        cases.append(f'qnum_ok {zraw(k)} {res(QueryElement.from_atomic_number, k)}')
+        meta.append(('QueryElement.from_atomic_number', k))
+        ck.case(('src-variant-num', k))
+    for c in dsub:
+        try:
+            got = c(None).atomic_symbol
+            cases.append(f'dsymbol_ok {cs(c.__name__)} {cs(got)}')
+        except Exception:
+            cases.append('false')
+        meta.append(('DynamicElement instance atomic_symbol', c.__name__))
+    for c in qsub:
+        try:
+            got = c().atomic_symbol
+            cases.append(f'qsymbol_ok {cs(c.__name__)} {cs(got)}')
+        except Exception:
+            cases.append('false')
+        meta.append(('QueryElement instance atomic_symbol', c.__name__))
+    ck.count('translated variant classes / lookups / symbols vs the running package', len(cases))
+    ok, failing, log = coqcases.run_cases('c18var', 'PeriodicTable', cases, extra=ELEMVARIANTS_EXTRA, shard=400)
+    ck.oblige('correspondence: Query* / Dynamic* classes and their methods as translated (Gen.ElemVariants) == running package', ok and not failing,
+              'correspondence', log or str([meta[i] for i in failing[:5]]))
+    ck.extra['correspondence_cases'] = ck.extra.get('correspondence_cases', 0) + len(cases)
+    ck.sample({'model_call': cases[5][:300], 'meta': repr(meta[5])})
+    if not ok or failing:
+        ck.unchecked('correspondence Gen.ElemVariants (translated variant classes) vs running chython/periodictable', log[-1500:],
+                     [repr(meta[i]) for i in failing[:20]])
+    return ok and not failing
+
+
 replay = common.generic_replay
 
 
 def run(ck):
-    ck.trusted += ['translator tools/gen_isolayout.py (Python ast: the per-atom encoder statements of isomorphism.py -> Gallina, fail closed; attribute-to-field mapping in its PRELUDE)',
+    ck.trusted += ['translator tools/gen_elemvariants.py (Python ast: the two class-creating loops of periodictable/__init__.py, atomic_symbol / from_symbol / from_atomic_number of DynamicElement and QueryElement -> Gallina, fail closed; order of the classes = import order x __all__ order, re-checked against the running interpreter)',
+                   'translator tools/gen_elemrules.py (Python ast: bodies of _compiled_valence_rules / _compiled_saturation_rules / _compiled_charge_radical / valence_rules -> Gallina, fail closed; container semantics = helpers of Model.Valence)',
+                   'translator tools/gen_elemcode.py (Python ast: bodies of the isotope / charge / is_radical setters, __init__, atomic_mass, from_symbol, from_atomic_number of element.py -> Gallina, fail closed; float tables read as exact decimals)',
+                   'translator tools/gen_isolayout.py (Python ast: the per-atom encoder statements of isomorphism.py -> Gallina, fail closed; attribute-to-field mapping in its PRELUDE)',
                    'translator tools/gen_elements.py (Python ast over periodictable/group*.py; regex over the two .pyx tables)',
                    'tools/gen_runtime.py (imports chython under the CachedMethods shim harness/boot.py)',
                    'CPython 3.12.1', 'tools/pyx2py.py (fail-closed .pyx transpiler, for the pack representability sweep)',
@@ -328,8 +763,13 @@ def run(ck):
                         'search: same space on the live classes plus charge -4..4 x radical; a case is (element, isotope) or '
                         '(element, charge, radical); all are distinct')
     ck.extra['exhaustive'] = True
-    proved = common.standard_proof_steps(ck, translators=['elements', 'runtime', 'isolayout'])
+    proved = common.standard_proof_steps(ck, translators=['elements', 'runtime', 'isolayout', 'elemcode', 'elemrules', 'elemvariants'])
+    if proved:
+        proved = correspondence_elemcode(ck) and proved
+        proved = correspondence_elemrules(ck) and proved
+        proved = correspondence_elemvariants(ck) and proved
     search(ck)
+    search_construction_and_rules(ck)
     search_lookup_entry_points(ck)
     search_pack_states(ck)
     search_variant_symbols(ck)
